@@ -13,9 +13,25 @@
   * `no_fault_same` : with no fault the faulty-writer run is the ordinary run (sanity of the formulation).
   * `cbor_read_fault`, `json_read_fault` : if the reader fails with the injected error at any offset strictly
         inside the item the fault-free decoder would read, decoding returns that error (fail-once and fail-stop).
+
+  All five statements are proved as first written.  Proof layout:
+  * RefmtProofs/Lemmas/WFaults.lean : `fault_reported` — for any `step` that never returns an explicit nil error
+        after a `Write` (`Honest`), if the fault-free run answers continue/done only and performs write number
+        `f.k`, observably, the faulty run ends with `err`; `cbor_honest` / `json_honest` hold for every state and
+        token (CBOR: the only `Ret.plain` is the definite-length close, which writes nothing; JSON: none at all).
+        Flags: C02.enc_eq_spec (CBOR), C14.json_accepts_exactly + the recogniser on `flatten v` (`recV` below).
+  * RefmtProofs/Lemmas/RFaults.lean : the faulted reader as a function `inj M stop` of the fault-free one (the
+        fault fires when `M` bytes of data are left); `read1`/`readN`/`unread1` either report the injected error
+        or commute with `inj`.  RFaultsCbor.lean / RFaultsJson.lean lift this dichotomy through every function of
+        the two decoder models up to `step`, then to `run` (fuel is computed from `data.length`, equal on both
+        sides) and `decode`.  The byte-range hypothesis `hb` is not needed.
 -/
 import RefmtModel
 import RefmtProofs.Props.C02
+import RefmtProofs.Props.C14
+import RefmtProofs.Lemmas.WFaults
+import RefmtProofs.Lemmas.RFaultsCbor
+import RefmtProofs.Lemmas.RFaultsJson
 set_option linter.unusedSimpArgs false
 set_option linter.unusedVariables false
 namespace Refmt.C16
@@ -55,34 +71,159 @@ def effective (f : WFault) (allWrites : List Bytes) : Prop :=
   f.mode ≠ .short ∨ allWrites.getD f.k [] ≠ []
 
 theorem no_fault_same {σ : Type} (step : σ → Tok → EncOut σ) (s : σ) (w : WSt) (hw : w.failed = false) (ts : List Tok) :
-    (runFaulty step none s w ts).1 = runFlags step s ts := by
-  sorry
+    (runFaulty step none s w ts).1 = runFlags step s ts :=
+  C16L.no_fault_same step ts s w hw
+
+/-- an effective fault at a write the run performs is noticed by the wrapper -/
+theorem effective_hits (f : WFault) (all : List Bytes) (h : effective f all) :
+    f.hits f.k (all.getD f.k []) = true := by
+  unfold WFault.hits
+  rcases h with h | h
+  · cases hm : f.mode <;> simp_all
+  · generalize all.getD f.k [] = x at h ⊢
+    cases x with
+    | nil => exact absurd rfl h
+    | cons _ _ => cases hm : f.mode <;> simp
 
 theorem cbor_write_fault (v : TV) (h : C02.WFv v = true) (f : WFault)
     (hk : f.k < (runOut CborEnc.step CborEnc.init v.flatten).2.length)
     (heff : effective f (runOut CborEnc.step CborEnc.init v.flatten).2) :
     (runFaulty CborEnc.step (some f) CborEnc.init {} v.flatten).1.getLast? = some Flag.err := by
-  sorry
+  apply C16L.fault_reported CborEnc.step f C16L.cbor_honest v.flatten CborEnc.init {} rfl (Nat.zero_le _)
+  · simpa using hk
+  · simpa using effective_hits f _ heff
+  · rw [(C02.enc_eq_spec v h).1]
+    intro x hx
+    simp only [List.mem_append, List.mem_replicate, List.mem_singleton] at hx
+    rcases hx with ⟨_, rfl⟩ | rfl
+    · exact Or.inl rfl
+    · exact Or.inr rfl
+
+/-! JSON documents: the recogniser (hence, by C14, the encoder) answers continue/done only. -/
+
+theorem scalar_recValue {t : Tok} (h : jsonScalarOk t = true) (stk : List Frame) :
+    recValue .json stk t.body = afterValue stk := by
+  unfold jsonScalarOk at h
+  cases hb : t.body <;> simp [hb] at h <;> simp [recValue, valOk, h]
+
+open C16L in
+mutual
+  theorem recV : ∀ (v : TV), JWF v = true → ∀ (stk : List Frame) (rest : List Tok),
+      AfterOk .json stk rest → FlagsOk (recFlags .json stk (v.flatten ++ rest))
+    | .scalar t, h, stk, rest, ha => by
+      simp only [TV.flatten, List.singleton_append, List.cons_append, List.nil_append, recFlags_cons]
+      rw [recStep_value _ _ _ (fun r => afterOk_not_mapKey _ _ r _ ha), scalar_recValue (by simpa [JWF] using h)]
+      exact afterOk_flags _ _ _ ha
+    | .arr tag len items, h, stk, rest, ha => by
+      simp only [TV.flatten, List.cons_append, List.append_assoc, recFlags_cons]
+      rw [recStep_value _ _ _ (fun r => afterOk_not_mapKey _ _ r _ ha)]
+      simp only [recValue]
+      apply flagsOk_cons_cont
+      apply recL items (by simpa [JWF] using h) stk
+      simp only [List.singleton_append, recFlags_cons, recStep, recValue]
+      exact afterOk_flags _ _ _ ha
+    | .map tag len es, h, stk, rest, ha => by
+      simp only [TV.flatten, List.cons_append, List.append_assoc, recFlags_cons]
+      rw [recStep_value _ _ _ (fun r => afterOk_not_mapKey _ _ r _ ha)]
+      simp only [recValue]
+      apply flagsOk_cons_cont
+      apply recE es (by simpa [JWF] using h) stk
+      simp only [List.singleton_append, recFlags_cons, recStep, recKey]
+      exact afterOk_flags _ _ _ ha
+  theorem recL : ∀ (vs : List TV), JWFl vs = true → ∀ (stk : List Frame) (rest : List Tok),
+      FlagsOk (recFlags .json (.arr :: stk) rest) →
+      FlagsOk (recFlags .json (.arr :: stk) (TV.flattenList vs ++ rest))
+    | [], _, stk, rest, hr => by simpa [TV.flattenList] using hr
+    | v :: vs, h, stk, rest, hr => by
+      simp only [JWFl, Bool.and_eq_true] at h
+      simp only [TV.flattenList, List.append_assoc]
+      apply recV v h.1
+      simp only [AfterOk, afterValue]
+      exact recL vs h.2 stk rest hr
+  theorem recE : ∀ (es : List (TV × TV)), JWFe es = true → ∀ (stk : List Frame) (rest : List Tok),
+      FlagsOk (recFlags .json (.mapKey :: stk) rest) →
+      FlagsOk (recFlags .json (.mapKey :: stk) (TV.flattenEntries es ++ rest))
+    | [], _, stk, rest, hr => by simpa [TV.flattenEntries] using hr
+    | (k, v) :: es, h, stk, rest, hr => by
+      simp only [JWFe, Bool.and_eq_true] at h
+      obtain ⟨⟨hk, hv⟩, hes⟩ := h
+      cases k with
+      | scalar t =>
+        cases hb : t.body <;> simp [hb] at hk
+        simp only [TV.flattenEntries, TV.flatten, List.append_assoc, List.singleton_append, List.cons_append,
+          List.nil_append, recFlags_cons, recStep, recKey, hb, keyOk]
+        apply flagsOk_cons_cont
+        apply recV v hv
+        simp only [AfterOk, afterValue]
+        exact recE es hes stk rest hr
+      | arr _ _ _ => simp at hk
+      | map _ _ _ => simp at hk
+end
+
+theorem json_flags_ok (c : JsonEnc.Cfg) (ff : Nat → Bytes) (v : TV) (h : JWF v = true) :
+    C16L.FlagsOk (runOut (JsonEnc.step c ff) JsonEnc.init v.flatten).1 := by
+  rw [C16L.runOut_fst, C14.json_accepts_exactly]
+  have := recV v h [] [] (by simp [C16L.AfterOk, afterValue])
+  simpa using this
 
 theorem json_write_fault (c : JsonEnc.Cfg) (ff : Nat → Bytes) (v : TV) (h : JWF v = true) (f : WFault)
     (hk : f.k < (runOut (JsonEnc.step c ff) JsonEnc.init v.flatten).2.length)
     (heff : effective f (runOut (JsonEnc.step c ff) JsonEnc.init v.flatten).2) :
     (runFaulty (JsonEnc.step c ff) (some f) JsonEnc.init {} v.flatten).1.getLast? = some Flag.err := by
-  sorry
+  apply C16L.fault_reported (JsonEnc.step c ff) f (C16L.json_honest c ff) v.flatten JsonEnc.init {} rfl
+    (Nat.zero_le _)
+  · simpa using hk
+  · simpa using effective_hits f _ heff
+  · exact json_flags_ok c ff v h
 
 /-! ### Read faults -/
 
 theorem cbor_read_fault (coerce : Bool) (bs : Bytes) (k : Nat) (stop : Bool) (hb : ∀ x ∈ bs, x < 256)
     (h0 : (CborDec.decode coerce (Rd.ofBytes bs)).res = .ok ())
     (hk : k < bs.length - (CborDec.decode coerce (Rd.ofBytes bs)).rd.data.length) :
-    (CborDec.decode coerce ⟨bs, some (k, stop), 0⟩).res = .error .injected := by
-  sorry
+    (CborDec.decode coerce ⟨bs, some (k, stop), 0⟩).res = .error .injected :=
+  C16R.decode_sim coerce bs k stop h0 hk
 
 theorem json_read_fault (bs : Bytes) (k : Nat) (stop : Bool) (hb : ∀ x ∈ bs, x < 256)
     (h0 : (JsonDec.decode (Rd.ofBytes bs)).res = .ok ())
     (hk : k < bs.length - (JsonDec.decode (Rd.ofBytes bs)).rd.data.length) :
-    (JsonDec.decode ⟨bs, some (k, stop), 0⟩).res = .error .injected := by
-  sorry
+    (JsonDec.decode ⟨bs, some (k, stop), 0⟩).res = .error .injected :=
+  C16R.Json.decode_sim bs k stop h0 hk
 
 example : (runFaulty CborEnc.step (some ⟨1, .short, false⟩) CborEnc.init {} [⟨.uint 500, none⟩]).1 = [Flag.err] := by decide
+
+/-! ### non-vacuity of the read-fault theorems (hypotheses satisfiable, boundary as stated) -/
+
+/-- evaluate the CBOR decoder model on closed input (`acceptValue` does not reduce by `decide`) -/
+local macro "cbor_eval" : tactic =>
+  `(tactic| simp [CborDec.decode, CborDec.run, CborDec.step, CborDec.subStep, CborDec.withMajor, CborDec.acceptValue,
+    Rd.read1, Rd.readN, Rd.ofBytes, Rd.afterFault, CborDec.init, CborDec.inContainer, CborDec.scalarOut,
+    CborDec.decUint, CborDec.decLen, CborDec.decString, CborDec.push, CborDec.maxInt, CborDec.cap32M,
+    CborEnc.sigNil, CborEnc.sigUndef, CborEnc.sigFalse, CborEnc.sigTrue, CborEnc.sigF16, CborEnc.sigF32,
+    CborEnc.sigF64, CborEnc.sigIndefBytes, CborEnc.sigIndefStr, CborEnc.sigIndefArr, CborEnc.sigIndefMap,
+    CborEnc.majNeg, CborEnc.majBytes, CborEnc.majStr, CborEnc.majArr, CborEnc.majMap, CborEnc.majTag,
+    CborEnc.sigBreak])
+
+-- CBOR `[42, "a"]` followed by one more byte: five bytes are read, one is left
+example : (CborDec.decode false (Rd.ofBytes [0x82, 0x18, 0x2a, 0x61, 0x61, 0x00])).res = .ok () ∧
+    (CborDec.decode false (Rd.ofBytes [0x82, 0x18, 0x2a, 0x61, 0x61, 0x00])).rd.data.length = 1 := by cbor_eval
+-- a fault before the last byte of the item is reported (as `cbor_read_fault` says) ...
+example : (CborDec.decode false ⟨[0x82, 0x18, 0x2a, 0x61, 0x61, 0x00], some (4, false), 0⟩).res = .error .injected := by
+  cbor_eval
+-- ... a fault right after the item is never reached
+example : (CborDec.decode false ⟨[0x82, 0x18, 0x2a, 0x61, 0x61, 0x00], some (5, true), 0⟩).res = .ok () := by
+  cbor_eval
+
+-- JSON `[12 ,"a"] x`: nine bytes are read, two are left
+example : (JsonDec.decode (Rd.ofBytes [91, 49, 50, 32, 44, 34, 97, 34, 93, 32, 120])).res = .ok () ∧
+    (JsonDec.decode (Rd.ofBytes [91, 49, 50, 32, 44, 34, 97, 34, 93, 32, 120])).rd.data.length = 2 := ⟨rfl, rfl⟩
+example : (JsonDec.decode ⟨[91, 49, 50, 32, 44, 34, 97, 34, 93, 32, 120], some (8, false), 0⟩).res =
+    .error .injected := rfl
+-- top-level number followed by a space: the look-ahead byte is pushed back, so it is not counted as
+-- read (`rd.data.length = 1`) and the theorem claims offsets 0 and 1 only; the model also reports a
+-- fault that hits the look-ahead read itself (offset 2), which the theorem does not need
+example : (JsonDec.decode (Rd.ofBytes [49, 50, 32])).res = .ok () ∧
+    (JsonDec.decode (Rd.ofBytes [49, 50, 32])).rd.data.length = 1 := ⟨rfl, rfl⟩
+example : (JsonDec.decode ⟨[49, 50, 32], some (1, true), 0⟩).res = .error .injected := rfl
+example : (JsonDec.decode ⟨[49, 50, 32], some (2, true), 0⟩).res = .error .injected := rfl
 end Refmt.C16
